@@ -1243,6 +1243,172 @@ Proof.
   specialize (H Hc ltac:(vm_compute; congruence)). vm_compute in H. exact (H 30 eq_refl eq_refl).
 Qed.
 
+(* ---- thresholds that are never hit.  never_hit th prev rs: on none of the levels rs (previous level resolution prev) the
+   current threshold satisfies `threshold and prev_l_res > threshold >= l_res`.  Such a threshold is never consumed, so the
+   thresholds behind it never become current either: the loop is the loop of closest_level. *)
+Fixpoint never_hit (th : option Z) (prev : Z) (rs : list Z) : Prop :=
+  match rs with
+  | [] => True
+  | r :: rest => thr_hit th prev r = false /\ never_hit th r rest
+  end.
+
+Lemma closest_thr_loop_never_hit g rn rd : forall rs level prev th ths tr last,
+  never_hit th prev rs ->
+  closest_thr_loop g rn rd rs level prev th ths tr last = closest_level_loop g rn rd rs level tr last.
+Proof.
+  induction rs as [|r rest IH]; intros level prev th ths tr last Hn; [reflexivity|].
+  destruct Hn as [Hh Hn]. cbn [closest_thr_loop closest_level_loop].
+  change (match th with Some t => negb (t =? 0) && (t <? prev) && (r <=? t) | None => false end) with (thr_hit th prev r).
+  rewrite Hh.
+  replace (match th with Some t => if false then (if t * rd <? rn then Some (level - 1) else if r * rd <=? rn then Some level else None)
+                                   else None | None => None end) with (@None Z) by (destruct th; reflexivity).
+  cbv beta iota. destruct tr as [t|].
+  - destruct (r * rd <? rn); [reflexivity|]. apply IH. exact Hn.
+  - apply IH. exact Hn.
+Qed.
+
+(* If the threshold the loop starts with (the first one not above the first level, or the last one) is never hit, the level
+   is the one of closest_level, whatever the other thresholds are. *)
+Lemma closest_level_thr_never_hit g ths rn rd :
+  never_hit (fst (thr_init (res_at g 0) (rev ths))) (res_at g 0) (ress g) ->
+  closest_level_thr g ths rn rd = closest_level g rn rd.
+Proof.
+  unfold closest_level_thr, closest_level. destruct (thr_init (res_at g 0) (rev ths)) as [th0 ths0]. cbn [fst].
+  apply closest_thr_loop_never_hit.
+Qed.
+
+Lemma thr_skip_In r0 : forall rest t, In (fst (thr_skip r0 t rest)) (t :: rest).
+Proof.
+  induction rest as [|t' rest IH]; intros t; cbn [thr_skip].
+  - left. reflexivity.
+  - destruct (r0 <? t); [right; apply IH|left; reflexivity].
+Qed.
+
+Lemma never_hit_below : forall rs t prev, (forall r, In r rs -> t < r) -> never_hit (Some t) prev rs.
+Proof.
+  induction rs as [|r rest IH]; intros t prev H; [exact I|]. split.
+  - cbn [thr_hit]. pose proof (H r (or_introl eq_refl)). replace (r <=? t) with false by (symmetry; lia).
+    rewrite Bool.andb_false_r. reflexivity.
+  - apply IH. intros r' Hr'. apply H. right. exact Hr'.
+Qed.
+
+Lemma never_hit_none : forall rs prev, never_hit None prev rs.
+Proof. induction rs as [|r rest IH]; intros prev; [exact I|]. split; [reflexivity|apply IH]. Qed.
+
+(* thresholds below the finest level (each threshold finer than every level) do not change the level choice *)
+Lemma closest_level_thr_below g ths rn rd :
+  (forall t r, In t ths -> In r (ress g) -> t < r) ->
+  closest_level_thr g ths rn rd = closest_level g rn rd.
+Proof.
+  intros H. apply closest_level_thr_never_hit. destruct (rev ths) as [|t rest] eqn:E; cbn [thr_init].
+  - cbn [fst]. apply never_hit_none.
+  - pose proof (thr_skip_In (res_at g 0) rest t) as Hin. destruct (thr_skip (res_at g 0) t rest) as [t' rest']. cbn [fst] in *.
+    apply never_hit_below. intros r Hr. apply H; [|exact Hr]. apply in_rev. rewrite E. exact Hin.
+Qed.
+
+(* a threshold on or above the previous level resolution and all remaining levels is stuck: `prev_l_res > threshold` never
+   holds again *)
+Lemma never_hit_stuck : forall rs t prev, prev <= t -> (forall r, In r rs -> r <= t) -> never_hit (Some t) prev rs.
+Proof.
+  induction rs as [|r rest IH]; intros t prev Hp H; [exact I|]. split.
+  - cbn [thr_hit]. replace (t <? prev) with false by (symmetry; lia). rewrite Bool.andb_false_r. reflexivity.
+  - apply IH; [apply H; left; reflexivity|]. intros r' Hr'. apply H. right. exact Hr'.
+Qed.
+
+(* thresholds that are all on or above every level (in particular above the first level) do not change the level choice:
+   the skip loop stops at the last of them, which is never below a previous level resolution *)
+Lemma closest_level_thr_above g ths rn rd :
+  (forall t r, In t ths -> In r (ress g) -> r <= t) ->
+  closest_level_thr g ths rn rd = closest_level g rn rd.
+Proof.
+  intros H. apply closest_level_thr_never_hit. destruct (rev ths) as [|t rest] eqn:E; cbn [thr_init].
+  - cbn [fst]. apply never_hit_none.
+  - pose proof (thr_skip_In (res_at g 0) rest t) as Hin. destruct (thr_skip (res_at g 0) t rest) as [t' rest']. cbn [fst] in *.
+    assert (Ht' : In t' ths) by (apply in_rev; rewrite E; exact Hin).
+    destruct (ress g) as [|r0 rs] eqn:Er; [exact I|].
+    apply never_hit_stuck.
+    + unfold res_at. rewrite Er. cbn [Z.to_nat nth]. apply H; [exact Ht'|left; reflexivity].
+    + intros r Hr. apply H; [exact Ht'|exact Hr].
+Qed.
+
+(* thresholds hit on levels the request is finer than are consumed without effect; if the threshold that is current
+   afterwards is never hit on the remaining levels, the whole loop is the loop of closest_level *)
+Lemma closest_thr_loop_pass_never g rn rd : 0 < rd -> forall n rs lv prev th ths tr last,
+  res_tail g lv rs -> (n <= length rs)%nat ->
+  (forall j, lv <= j < lv + Z.of_nat n -> rn < res_at g j * rd) ->
+  (let '(th', _, prev') := thr_pass rs prev th ths n in never_hit th' prev' (skipn n rs)) ->
+  closest_thr_loop g rn rd rs lv prev th ths tr last = closest_level_loop g rn rd rs lv tr last.
+Proof.
+  intros Hrd. induction n as [|n IH]; intros rs lv prev th ths tr last Ht Hn Hc Hnh.
+  - replace (thr_pass rs prev th ths 0) with (th, ths, prev) in Hnh by (destruct rs; reflexivity).
+    cbn [skipn] in Hnh. apply closest_thr_loop_never_hit. exact Hnh.
+  - destruct rs as [|r rest]; [cbn [length] in Hn; lia|]. destruct Ht as [-> Ht].
+    assert (Hlv : rn < res_at g lv * rd) by (apply Hc; lia).
+    assert (Hlt : (res_at g lv * rd <? rn) = false) by lia.
+    cbn [thr_pass skipn] in Hnh.
+    cbn [closest_thr_loop closest_level_loop].
+    change (match th with Some t => negb (t =? 0) && (t <? prev) && (res_at g lv <=? t) | None => false end)
+      with (thr_hit th prev (res_at g lv)).
+    assert (Hearly : match th with
+                     | Some t => if thr_hit th prev (res_at g lv)
+                                 then (if t * rd <? rn then Some (lv - 1) else if res_at g lv * rd <=? rn then Some lv else None)
+                                 else None
+                     | None => None end = None).
+    { destruct th as [t|]; [|reflexivity]. destruct (thr_hit (Some t) prev (res_at g lv)) eqn:E; [|reflexivity].
+      cbn [thr_hit] in E. replace (t * rd <? rn) with false by (symmetry; nia).
+      replace (res_at g lv * rd <=? rn) with false by (symmetry; lia). reflexivity. }
+    rewrite Hearly. rewrite Hlt.
+    set (st := if thr_hit th prev (res_at g lv) then match ths with [] => (None, []) | t' :: r' => (Some t', r') end else (th, ths)).
+    change (if thr_hit th prev (res_at g lv) then thr_pop ths else (th, ths)) with st in Hnh.
+    destruct st as [th1 ths1].
+    assert (Hi : forall tr0, closest_thr_loop g rn rd rest (lv + 1) (res_at g lv) th1 ths1 tr0 lv =
+                             closest_level_loop g rn rd rest (lv + 1) tr0 lv).
+    { intros tr0. apply IH; [exact Ht|cbn [length] in Hn; lia|intros j Hj; apply Hc; lia|exact Hnh]. }
+    destruct tr as [t0|]; apply Hi.
+Qed.
+
+(* Complement of closest_level_thr_general: if the threshold that is current after levels 0 .. k-1 (all coarser than the
+   request) is never hit on the levels from k on, the level is the one of closest_level. *)
+Lemma closest_level_thr_general_unhit g ths rn rd k :
+  0 < rd -> 0 <= k <= levels g ->
+  (forall j, 0 <= j < k -> rn < res_at g j * rd) ->
+  let '(th0, ths0) := thr_init (res_at g 0) (rev ths) in
+  let '(th, _, prev) := thr_pass (ress g) (res_at g 0) th0 ths0 (Z.to_nat k) in
+  never_hit th prev (skipn (Z.to_nat k) (ress g)) ->
+  closest_level_thr g ths rn rd = closest_level g rn rd.
+Proof.
+  intros Hrd Hk Hc. unfold closest_level_thr, closest_level. destruct (thr_init (res_at g 0) (rev ths)) as [th0 ths0].
+  pose proof (closest_thr_loop_pass_never g rn rd Hrd (Z.to_nat k) (ress g) 0 (res_at g 0) th0 ths0 None (-1) (res_tail_all g)
+                ltac:(unfold levels in Hk; lia) ltac:(intros j Hj; apply Hc; lia)) as H.
+  destruct (thr_pass (ress g) (res_at g 0) th0 ths0 (Z.to_nat k)) as [[th ths'] prev].
+  exact H.
+Qed.
+
+(* several thresholds in one gap of ex_grid (100, 50, 20): 70 and 60 both lie between levels 0 and 1.  70 decides the
+   requests between these levels; once it is consumed 60 becomes current with prev_l_res = 50 <= 60: it is stuck, and the
+   threshold 30 behind it never applies (31 gets level 2 as without thresholds, not 1 as with [30; 70]) *)
+Example ex_thresholds_same_gap :
+  closest_level_thr ex_grid [30; 60; 70] 71 1 = 0 /\ closest_level_thr ex_grid [30; 60; 70] 65 1 = 1 /\
+  closest_level_thr ex_grid [30; 60; 70] 31 1 = 2 /\ closest_level_thr ex_grid [30; 70] 31 1 = 1.
+Proof. repeat split; reflexivity. Qed.
+(* [30; 60; 70] on ex_grid, request 31: 70 is consumed at level 1 (31 < 50), 60 is stuck afterwards *)
+Example ex_thresholds_unhit : closest_level_thr ex_grid [30; 60; 70] 31 1 = closest_level ex_grid 31 1.
+Proof.
+  pose proof (closest_level_thr_general_unhit ex_grid [30; 60; 70] 31 1 2 ltac:(lia) ltac:(vm_compute; split; congruence)) as H.
+  assert (Hc : forall j, 0 <= j < 2 -> 31 < res_at ex_grid j * 1).
+  { intros j Hj. assert (j = 0 \/ j = 1) as [-> | ->] by lia; vm_compute; reflexivity. }
+  specialize (H Hc). cbv beta iota zeta delta [thr_init thr_skip rev app ex_grid res_at ress nth Z.to_nat] in H.
+  apply H. vm_compute. repeat split.
+Qed.
+Example ex_thresholds_below_above :
+  closest_level_thr ex_grid [5; 10] 31 1 = closest_level ex_grid 31 1 /\
+  closest_level_thr ex_grid [100; 300] 31 1 = closest_level ex_grid 31 1.
+Proof.
+  split.
+  - apply closest_level_thr_below. intros t r Ht Hr. cbn in Ht, Hr. intuition lia.
+  - apply closest_level_thr_above. intros t r Ht Hr. cbn in Ht, Hr. intuition lia.
+Qed.
+
 (* ---- MetaGrid.get_affected_level_tiles *)
 Lemma zrange_step_In a b s k : 0 < s -> 0 <= k -> a + s * k <= b -> In (a + s * k) (zrange_step a b s).
 Proof.
